@@ -424,8 +424,23 @@ class Check:
             coq_clean_cone(props_file)
         ok_t, tlog = run_translator()
         if not ok_t:
-            self.extra["translator"] = tlog[-2000:]
-            return False, "translator failed: " + tlog[-1500:]
+            # a generator failure breaks the tie of the property that owns it:
+            # gen_cXX.go -> CXX, main.go (genSh) -> C17; anything unattributable breaks every property
+            mine = []
+            for line in tlog.splitlines():
+                m = re.search(r"FAILED (\S+) (.*)", line)
+                if not m:
+                    if line.strip():
+                        mine.append(line)
+                    continue
+                owner = m.group(1).lower()
+                mo = re.match(r"gen_(c\d+)", owner)
+                pid = mo.group(1).upper() if mo else ("C17" if owner == "main.go" else None)
+                if pid is None or pid == self.pid:
+                    mine.append(line)
+            if mine:
+                self.extra["translator"] = "\n".join(mine)[-2000:]
+                return False, "translator failed: " + "\n".join(mine)[-1500:]
         ok, o, dt = coq_make([props_file + "o"])
         self.extra["coq_build_s"] = round(dt, 1)
         bad = hygiene_scan()
